@@ -668,7 +668,7 @@ static size_t copy_chars (UCHAR* from, UCHAR* to, size_t count, interactive_t* i
                 {
                 case TELOPT_TTYPE:
                   {
-                    if (ip->sb_buf[1] != TELQUAL_IS)
+                    if (ip->sb_pos < 2 || ip->sb_buf[1] != TELQUAL_IS)
                       break;
                     copy_and_push_string ((char*)ip->sb_buf + 2);
                     apply (APPLY_TERMINAL_TYPE, ip->ob, 1, ORIGIN_DRIVER);
